@@ -125,7 +125,7 @@ class Gen:
             fn = r.choice(FUNCS + (PG_FUNCS if self.b == "pg" else []) + ["cust:%s" % hexs("MY_FN")])
             n = r.randrange(0, 3)
             args = [self.expr(d) for _ in range(n)]
-            if n >= 2 and r.random() < 0.15:
+            if n >= 2 and r.random() < (0.4 if fn in ("greatest", "least", "coalesce", "ifnull") else 0.1):
                 args = [args[0]] * n          # the same argument repeated (GREATEST(a, a), COALESCE(x, x))
             return "(fn %s %s)" % (fn, " ".join(args))
         if k < 0.76:
